@@ -106,7 +106,8 @@ LabVariants ==
 ValsA == {<<1, 2>>}
 \* <<3, -3>>: non-zero values whose sum is zero.  The thorough catalogue takes every pair of the 29 location variants
 \* and pays with fewer value pairs (the quick one has them all on the 3 base locations): the product stays below 10^6
-ValsB == IF Tier = "quick" THEN {<<1, 2>>, <<1, -3>>, <<-1, -2>>, <<0, 0>>, <<3, -3>>} ELSE {<<1, 2>>, <<1, -3>>, <<3, -3>>}
+\* and the run within its time limit
+ValsB == IF Tier = "quick" THEN {<<1, 2>>, <<1, -3>>, <<-1, -2>>, <<0, 0>>, <<3, -3>>} ELSE {<<1, 2>>, <<3, -3>>}
 
 Hdr0 == [period |-> 1, time |-> 0, dur |-> 0, comments |-> <<>>, dflt |-> "", doc |-> "",
          drop |-> "", keep |-> ""]
